@@ -272,6 +272,20 @@ Theorem C08_overlaps_consistent : forall t u, inv_locs t = true -> inv_locs u = 
 Proof. exact overlaps_consistent. Qed.
 Print Assumptions C08_overlaps_consistent.
 
+(* FeatureList.sort() (default ordering): a permutation of the features in which no feature lies strictly behind its
+   successor with respect to LocationTuple.__lt__, i.e. the lexicographic order of the covered ranges (ahead, for
+   reverse=True); a list already in order is returned unchanged (ties keep their order) *)
+Theorem C08_sort_spec : forall rev l,
+  Permutation (sort_fts rev l) l /\ ordered_fts rev (sort_fts rev l) = true /\
+  (forall x y, ft_before rev x y = (if rev then ranges_lt (range (flocs x)) (range (flocs y))
+                                    else ranges_lt (range (flocs y)) (range (flocs x)))).
+Proof. exact sort_fts_spec. Qed.
+Print Assumptions C08_sort_spec.
+
+Theorem C08_sort_fixpoint : forall rev l, ordered_fts rev l = true -> sort_fts rev l = l.
+Proof. exact sort_fts_id. Qed.
+Print Assumptions C08_sort_fixpoint.
+
 (* ---- non-vacuity: concrete inputs meeting the hypotheses ---- *)
 (* a minus-strand feature with three locations, one of them cut on each side by the window [3,12), shifted by 3 *)
 Example C08_witness_slice :
